@@ -351,6 +351,14 @@ fn delta_for_tx(
                         tx.trade_date, tx.security
                     ));
                 }
+            } else if sell_specs.specified_superficial_loss.is_some() {
+                // No ACB: a registered affiliate, whose sales have no capital
+                // gain or loss at all.
+                return Err(format!(
+                    "Sell order on {} of {}: superficial loss was specified, \
+                    but registered affiliates have no capital gains or losses",
+                    tx.trade_date, tx.security
+                ));
             }
         }
         crate::portfolio::TxActionSpecifics::Roc(roc_specs) => {
